@@ -8,6 +8,8 @@ from typing import Dict, List, Sequence, Tuple
 RULE_MODULES: Dict[str, str] = {
     "R1": "r01_waitset",
     "R2": "r02_bound",
+    "R3": "r03_protocol",
+    "R11": "r11_reply",
 }
 
 # property -> list of obligation-id prefixes ("R1" selects every obligation of R1,
